@@ -120,7 +120,7 @@ def judgeOutcome (thrown : List String) (st : JSt) (tag text : String) : List St
   let reported := o.segs.any (fun s => s.startsWith "err ") || o.segs.contains "fault-top" ||
     (tag == "fault" && !o.segs.any (fun s => s == "catch " ++ injected || s == "caught " ++ injected))
   let hbBad :=
-    if st.probe0 != "" && field side "hb" != field side0 "hb" && !reported then
+    if st.probe0 != "" && field side "hb" != field side0 "hb" && !reported && !st.exempt.contains "hb" then
       [s!"heart-beat {tag} side state '{sidePart o.probe}' changed without an error reaching the driver"] else []
   let crashBad := if o.segs.any (fun s => s.startsWith "crash") then [s!"crash {tag} {o.segs.getLastD ""}"] else []
   -- the LPC side compares this_player() before and after every catch that caught something
@@ -194,6 +194,8 @@ def judge (input impl : List String) : List String :=
   let thrown := thrownOf input
   let exempt := input.flatMap (fun l => match toks l with
     | ["inject", _, _, r, _] => [r]
+    -- with a lowered MaxCallDepth an error can arrive so deep that the master's handler cannot run (nothing is logged)
+    | ["maxdepth", _] => ["hb"]
     | _ => [])
   (impl.foldl (judgeLine thrown) { exempt := exempt }).bad
 
